@@ -47,8 +47,13 @@ TExEnd == /\ Ev.ev = "ex_end"
           /\ (IF Ev.ok THEN UNCHANGED bad ELSE Mark("HalfLoadedBalancerTable"))
           /\ inflight' = [x \in DOMAIN inflight \ {Ev.id} |-> inflight[x]]
           /\ UNCHANGED <<may, swaps>>
+\* an HTTPS request (certificate chosen by SNI) during TLS reloads must simply succeed
+TTlsEnd == /\ Ev.ev = "tls_end"
+           /\ (IF Ev.ok THEN UNCHANGED bad ELSE Mark("TlsRequestFailedDuringReload"))
+           /\ inflight' = [x \in DOMAIN inflight \ {Ev.id} |-> inflight[x]]
+           /\ UNCHANGED <<may, swaps>>
 TEnd == Ev.ev = "end" /\ (IF Ev.panic THEN Mark("panic") ELSE UNCHANGED bad) /\ UNCHANGED <<may, inflight, swaps>>
-TNext == l <= Len(Tr) /\ l' = l + 1 /\ (TNew \/ TSwapStart \/ TSwapEnd \/ TReqStart \/ TReqEnd \/ TExEnd \/ TEnd)
+TNext == l <= Len(Tr) /\ l' = l + 1 /\ (TNew \/ TSwapStart \/ TSwapEnd \/ TReqStart \/ TReqEnd \/ TExEnd \/ TTlsEnd \/ TEnd)
 Report == (l = Len(Tr) + 1) => PrintT(ToJson([done |-> TRUE, consumed |-> l - 1, bad |-> bad]))
 Accepted == TLCGet("stats").diameter - 1 = Len(Tr)
 =======================================================================
